@@ -983,7 +983,10 @@ def _forward_subst(fn_node: ast.FunctionDef, keep: set, alias_only: bool = False
                     continue
                 rest = block[i + 1:]
                 uses = [n for s2 in rest for n in ast.walk(s2) if isinstance(n, ast.Name) and n.id == v and isinstance(n.ctx, ast.Load)]
-                trivial = _is_path(st.value)
+                # a pure builtin of path expressions (`len(measure_str)`) may be re-evaluated anywhere its operands are unchanged
+                pure = isinstance(st.value, ast.Call) and isinstance(st.value.func, ast.Name) and st.value.func.id in ("len", "int", "float", "abs", "str", "bool") \
+                    and not st.value.keywords and all(_is_path(a) for a in st.value.args)
+                trivial = _is_path(st.value) or (pure and not alias_only)
                 if alias_only and not trivial and not (v.startswith("__") and loads.get(v, 0) == 1):
                     continue      # (temporaries the normaliser itself introduced for arguments are always put back)
                 if not uses or len(uses) != loads.get(v, 0) or (len(uses) > 3 and not trivial):
@@ -1192,6 +1195,53 @@ def loopify_return_comp(node: ast.FunctionDef, acc: str = "__acc") -> ast.Functi
                 ast.copy_location(y, at)
     ast.fix_missing_locations(new)
     return new
+
+
+def unroll_boundary_pairs(fn):
+    """for b, (lo, hi) in enumerate(zip(L, L[1:])) with L = [E(k) for k in range(R)] bound once
+         ->   for b in range(R - 1): lo = E(b); hi = E(b + 1); ...
+    (consecutive boundaries of a computed boundary list, each pair visited with its index).  Returns a new Fn."""
+    import dataclasses
+    node = copy.deepcopy(fn.node)
+    for block in _blocks(node):
+        for i, st in enumerate(block):
+            if not (isinstance(st, ast.For) and isinstance(st.iter, ast.Call) and isinstance(st.iter.func, ast.Name) and st.iter.func.id == "enumerate" and
+                    len(st.iter.args) == 1 and not st.iter.keywords and isinstance(st.target, ast.Tuple) and len(st.target.elts) == 2 and
+                    isinstance(st.target.elts[0], ast.Name) and isinstance(st.target.elts[1], ast.Tuple) and len(st.target.elts[1].elts) == 2 and
+                    all(isinstance(x, ast.Name) for x in st.target.elts[1].elts)):
+                continue
+            z = st.iter.args[0]
+            if not (isinstance(z, ast.Call) and isinstance(z.func, ast.Name) and z.func.id == "zip" and len(z.args) == 2 and
+                    isinstance(z.args[0], ast.Name) and isinstance(z.args[1], ast.Subscript) and ast.unparse(z.args[1]) == f"{z.args[0].id}[1:]"):
+                continue
+            L = z.args[0].id
+            ds = [(blk, j, x) for blk in _blocks(node) for j, x in enumerate(blk) if isinstance(x, ast.Assign) and len(x.targets) == 1 and
+                  isinstance(x.targets[0], ast.Name) and x.targets[0].id == L]
+            if len(ds) != 1:
+                continue
+            comp = ds[0][2].value
+            if not (isinstance(comp, ast.ListComp) and len(comp.generators) == 1 and not comp.generators[0].ifs and
+                    isinstance(comp.generators[0].target, ast.Name) and isinstance(comp.generators[0].iter, ast.Call) and
+                    isinstance(comp.generators[0].iter.func, ast.Name) and comp.generators[0].iter.func.id == "range" and
+                    len(comp.generators[0].iter.args) == 1):
+                continue
+            k = comp.generators[0].target.id
+            R_ = comp.generators[0].iter.args[0]
+            b = st.target.elts[0].id
+            lo, hi = (x.id for x in st.target.elts[1].elts)
+            e_lo = _Rename({k: ast.Name(id=b, ctx=ast.Load())}).visit(copy.deepcopy(comp.elt))
+            e_hi = _Rename({k: ast.BinOp(left=ast.Name(id=b, ctx=ast.Load()), op=ast.Add(), right=ast.Constant(value=1))}).visit(copy.deepcopy(comp.elt))
+            st.target = ast.Name(id=b, ctx=ast.Store())
+            st.iter = ast.Call(func=ast.Name(id="range", ctx=ast.Load()),
+                               args=[ast.BinOp(left=copy.deepcopy(R_), op=ast.Sub(), right=ast.Constant(value=1))], keywords=[])
+            st.body = [ast.Assign(targets=[ast.Name(id=lo, ctx=ast.Store())], value=e_lo),
+                       ast.Assign(targets=[ast.Name(id=hi, ctx=ast.Store())], value=e_hi)] + st.body
+            ast.fix_missing_locations(ast.copy_location(st, st))
+            for x in st.body[:2]:
+                ast.copy_location(x, st)
+                ast.fix_missing_locations(x)
+    ast.fix_missing_locations(node)
+    return dataclasses.replace(fn, node=node)
 
 
 def with_roles(fn, roles):
